@@ -122,9 +122,48 @@ def cleanup(c):
 
 
 def run_exe(path, timeout=10, pty=False):
-    """Run a produced executable; returns (exit status, stdout, stderr)."""
+    """Run a produced executable; returns (exit status, stdout, stderr).  With pty=True stdout is a pseudo-terminal
+    (line buffered, so lines printed before an abort() are delivered); the program is started directly, not through a
+    shell, so no shell job-control message ("Aborted") is mixed into the output."""
     if pty:
-        r = subprocess.run(['script', '-qec', path, '/dev/null'], capture_output=True, text=True, timeout=timeout)
-        return r.returncode, r.stdout.replace('\r\n', '\n'), r.stderr
+        import pty as _pty
+        import select
+        import time as _time
+        master, slave = _pty.openpty()
+        p = subprocess.Popen([path], stdin=subprocess.DEVNULL, stdout=slave, stderr=subprocess.PIPE, close_fds=True)
+        os.close(slave)
+        chunks = []
+        deadline = _time.time() + timeout
+        err = b''
+        try:
+            while True:
+                left = deadline - _time.time()
+                if left <= 0:
+                    p.kill()
+                    raise subprocess.TimeoutExpired(path, timeout)
+                r, _, _ = select.select([master], [], [], min(left, 0.5))
+                if master in r:
+                    try:
+                        d = os.read(master, 65536)
+                    except OSError:
+                        d = b''
+                    if not d:
+                        break
+                    chunks.append(d)
+                elif p.poll() is not None:
+                    # process ended and nothing more to read
+                    r, _, _ = select.select([master], [], [], 0.05)
+                    if master not in r:
+                        break
+            err = p.stderr.read() if p.stderr else b''
+            p.wait(timeout=5)
+        finally:
+            os.close(master)
+            if p.stderr:
+                p.stderr.close()
+        rc = p.returncode
+        if rc is not None and rc < 0:
+            rc = 128 - rc
+        return rc, b''.join(chunks).decode(errors='replace').replace('\r\n', '\n'), err.decode(errors='replace')
     r = subprocess.run([path], capture_output=True, text=True, timeout=timeout)
     return r.returncode, r.stdout, r.stderr
